@@ -18,16 +18,17 @@ CONF = ("compositional obligation (taint-style) dataflow for set confinement ove
 
 CLAIMS = {
     "C01": dict(
-        technique=CONF + "; end-point candidate lint; kernel partial-operation guards by CFG dominance",
+        technique=CONF + "; candidate-origin (may-reach) analysis of the end-point families; kernel partial-operation guards by CFG dominance",
         ref="DESIGN.md 3.1, 3 (C01)",
         text=(
             "Decides three structural necessary conditions of C01 for all operands: (1) confinement -- for every return "
             "site of the 15 flat x flat handlers the result is a subset of both operands (guards: X in Y, X == Y, carrier "
             "coincidence, all end points inside a convex operand; three numeric kernel axioms), so a carrier-line hit "
             "returned without clipping, a dropped membership conjunct or a wrongly guarded end point is reported at the "
-            "offending statement; (2) every end point of each operand is offered as a candidate in the collinear "
-            "branches (whole-operand returns for nested half-lines) and no result return -- in particular no `return None` -- "
-            "can bypass a candidate, so overlaps are not reduced to one end point or reported as disjoint; (3) the "
+            "offending statement; (2) every end point of each operand is a candidate family of the handler's result (flow-sensitive "
+            "candidate-origin analysis: which part of which operand can reach the returned value; whole-operand returns for nested "
+            "half-lines) and no result return of the candidate region -- in particular no `return None` -- "
+            "can bypass a family, so overlaps are not reduced to one end point or reported as disjoint; (3) the "
             "kernels' partial operations (division by n.dv, normalised cross products) are guarded by the parallel tests. "
             "NOT decided: that the kernels compute the right coordinates, that no point is missed in generic position, "
             "the tolerance band, None only when disjoint."
@@ -35,25 +36,28 @@ CLAIMS = {
         note=NOTE_COMMON + "A4: the three numeric kernels and the membership predicates compute what their names say.",
     ),
     "C02": dict(
-        technique=CONF + "; sibling-summary comparison of the hit-set helpers; propositional exhaustiveness on the CFG",
+        technique=CONF + "; candidate-origin analysis of the boundary families with sibling comparison of the hit-set helpers; propositional exhaustiveness on the CFG; tolerance-margin lint of the clipping predicates",
         ref="DESIGN.md 3.1, 3 (C02)",
         text=(
             "Decides structural necessary conditions of C02: confinement of every return site of the 10 flat x "
             "{polygon, polyhedron} handlers and of the 3 hit-set helpers in both operands; boundary-family completeness "
             "(faces AND edges of the polyhedron, the full edge cycle of the polygon, contained end points / origin added "
-            "under their membership test, no result return bypassing a family) with identical abstract summaries of the two "
-            "sibling helpers; propositional exhaustiveness of the end-point case split of segment x polyhedron. NOT decided: coordinates, the "
+            "under their membership test, no result return bypassing a family -- decided on candidate-origin families, independent "
+            "of loops / comprehensions / private helpers) with identical families of the two "
+            "sibling helpers; propositional exhaustiveness of the end-point case split of segment x polyhedron; the Point-in-polygon / "
+            "Point-in-polyhedron predicates that clip every hit reject only beyond a tolerance margin that depends on the live get_eps() "
+            "(touching and boundary hits are not lost to float noise). NOT decided: coordinates, the "
             "longest-segment selection, hash-merging of coincident hits, tangency classification."
         ),
         note=NOTE_COMMON + "A4 as for C01.",
     ),
     "C03": dict(
-        technique=CONF + "; alpha-equivalence of the mirrored candidate loops; dimension order of the selection chain from inferred element types",
+        technique=CONF + "; candidate-origin analysis of the mirrored vertex / edge / face families; dimension order of the selection chain from inferred element types",
         ref="DESIGN.md 3.1, 3 (C03)",
         text=(
             "Decides structural necessary conditions of C03: confinement of every return site of the three body x body "
-            "handlers; swap closure of the candidate collection (vertices of a in b and of b in a, alpha-equivalent; edge "
-            "crossings through the symmetric helper; faces of each polyhedron clipped by the other feeding the same sets; "
+            "handlers; swap closure of the candidate collection (vertices of a in b and of b in a; edge "
+            "crossings; faces of each polyhedron clipped by the other -- as candidate-origin families of the result; "
             "every result return -- in particular `return None` -- lies behind all of these candidate families); result selection ordered by dimension and the cardinality ladders 0/1/2 points -> None/Point/Segment. NOT "
             "decided: that the collected vertex set is the true one, Euler reassembly, hash deduplication, measures."
         ),
@@ -98,7 +102,7 @@ CLAIMS = {
             "unreachability of the internal raises by types / equality correlation / propositional exhaustiveness / "
             "add-count, that no membership test used by the handlers can fall through to NotImplementedError, and -- for the same-type "
             "pairs, where both argument orders run one handler with exchanged operands -- that at every result return the set of "
-            "consulted candidate families is closed under exchanging the operands. "
+            "consulted candidate families (candidate-origin analysis) is closed under exchanging the operands. "
             "NOT decided (listed as `undecided` in evidence): raises guarded only by runtime cardinalities or "
             "numeric geometry, and numeric coincidence of handler(a,b) and handler(b,a) for same-type pairs."
         ),
@@ -116,8 +120,10 @@ CLAIMS = {
             "universally quantified vertex loop for ConvexPolygon), which by convexity of S is equivalent to containment "
             "while dropping a conjunct is not; (3) for the bounded containers every accepting return of the Point branch depends on "
             "or is guarded by membership in the carrier line / plane, and the polyhedron test is a universal loop over all faces; "
-            "(4) every membership predicate is effect-free, so one `in` test cannot change the answer of the next. NOT decided: the numerical truth of the Point-in-S predicates, inclusive "
-            "boundaries and the tolerance band."
+            "with no accepting return before the loop has completed; "
+            "(4) every membership predicate is effect-free, so one `in` test cannot change the answer of the next; (5) every ordering "
+            "comparison that can reject a Point leaves a tolerance margin depending on the live get_eps() (boundary points count as contained; "
+            "an exact `< 0` threshold is reported). NOT decided: the numerical truth of the Point-in-S predicates and the width of the tolerance band."
         ),
         note=NOTE_COMMON + "Defining points are read from the inferred field table, not hard-coded.",
     ),
@@ -182,7 +188,7 @@ CLAIMS = {
         note=NOTE_COMMON,
     ),
     "C14": dict(
-        technique="effect/ownership summaries + R-CROSS guard dominance per reaching definition + CFG rejection guard + cycle-loop lint (static analysis, ast)",
+        technique="effect/ownership summaries + R-CROSS guard dominance per reaching definition + CFG rejection guard + cycle-loop lint + sibling-call agreement of caps and rings (static analysis, ast)",
         ref="DESIGN.md 3 (C14)",
         text=(
             "Decides four structural clauses of C14: the seven builders have no effect on their arguments (every in-place "
@@ -192,19 +198,21 @@ CLAIMS = {
             "cross products with the normal as a factor, mutually perpendicular and of equal length by construction (vertices stay in "
             "the circle's plane for every normal, also near-axis ones); n < 3 is rejected on every "
             "path with the right threshold; every ring/cap/side loop ranges over the full index range with a wrap-around "
-            "successor. NOT decided: vertex/edge/face counts, vertices on the specified surface at equal steps, closed-form "
+            "successor (modulo, if-idiom, wrap helper or zip-with-rotation); in Cylinder and Cone every vertex ring used for the side faces is requested with the same "
+            "centre, normal (up to a positive factor), radius and n as a cap, so caps and side faces share their vertices. NOT decided: vertex/edge/face counts, vertices on the specified surface at equal steps, closed-form "
             "area and volume (numeric)."
         ),
         note=NOTE_COMMON,
     ),
     "C15": dict(
-        technique="CFG must-pass-through of rejection guards + def-use + type-set abstract evaluation on unsupported operand types (static analysis, ast)",
+        technique="CFG must-pass-through of rejection guards + def-use + homogeneity-degree domain on the guard expressions + type-set abstract evaluation on unsupported operand types (static analysis, ast)",
         ref="DESIGN.md 3 (C15)",
         text=(
             "Decides the structural clauses of C15 for all inputs: each validation named in the statement is a rejection "
             "guard (a condition one of whose edges leads only to raise) that lies on every normal path of its "
             "constructor/helper, is data-dependent on the inputs it validates, reads the live tolerance where "
-            "near-degenerate inputs are named, has the right count threshold, and -- for element-wise validations -- "
+            "near-degenerate inputs are named, is a statement about *directions* where dependent edge vectors are named (homogeneity-degree "
+            "domain: a quantity of positive degree in the edge vectors compared with an absolute tolerance is reported), has the right count threshold, and -- for element-wise validations -- "
             "sits in a loop over the validated collection that no iteration can complete without; unsupported operand "
             "types make intersection/distance/angle/parallel/orthogonal/volume/move and the typed constructors raise "
             "(abstract evaluation on the unsupported types); exception objects are raised, not returned; constructors "
